@@ -77,6 +77,15 @@ def lake_build(targets, timeout=1500):
     return p.returncode == 0, (p.stdout + p.stderr)
 
 
+def leanchecker(prop_id, timeout=1500):
+    """replay the compiled module DW.Props.<id> (and its imports) through the toolchain's independent checker"""
+    try:
+        p = subprocess.run(['lake', 'env', 'leanchecker', f'DW.Props.{prop_id}'], cwd=LEAN, capture_output=True, text=True, timeout=timeout)
+    except Exception as e:      # noqa
+        return False, f'leanchecker did not run: {e!r}'
+    return p.returncode == 0, (p.stdout + p.stderr)
+
+
 def theorem_names(prop_id):
     """Names of the property theorems in DW/Props/<id>.lean (`theorem Cxx_*`)."""
     f = LEAN / 'DW' / 'Props' / f'{prop_id}.lean'
